@@ -27,7 +27,7 @@ LEVEL = 'model_checking'
 
 P = None            # the pool module, imported by setup()
 SCRATCH = None
-NZYG = 4
+NZYG = 8
 
 # ---- environment ----------------------------------------------------------------------------------------
 def setup():
@@ -345,7 +345,8 @@ def signature(minimal, warm, cold):
             parts.append('<data modification>' if v in P.DATA_MODS else '<%s>' % v)
         else:
             st = P.POOL[v]
-            rel = 'the same statement' if st is last else 'same code, other arguments' if st.family == last.family else 'other code'
+            rel = ('the same statement' if st is last else 'same function, other arguments' if st.family == last.family
+                   else 'shares a lambda or query text' if st.shares & last.shares else 'other code')
             parts.append('%s [%s]' % (st.kind, rel))
     ms = modseq_of(minimal)
     before = cold_ref(minimal[-1][1], ()) if ms else None
